@@ -1,21 +1,10 @@
 // Kani unit `columnar_kani` (C30):
 //   K-BIT     the three bit helpers, extracted verbatim (they are private), against the contract the Verus unit
 //             assumes; loop-free over every u64 word pattern and every slot, slices of length <= 3 (stated bound)
-//   K-PROMOTE Column::set's type-spill path (promote_to_other + ColumnData::for_each, which Verus cannot take
-//             because the closure captures `&mut`), on the UNMODIFIED files, bounded: columns of <= 3 slots
+//   (K-PROMOTE, a bounded check of Column::promote_to_other + ColumnData::for_each on the unmodified files, was
+//    tried and does not terminate in CBMC -- FxHashMap inserts, even with concrete keys, > 10 min -- so that
+//    contract stays an unverified assumption of the Verus unit.)
 #![allow(dead_code, unused_imports)]
-pub mod graph {
-    #[path = "@REPO@/src/graph/property.rs"]
-    pub mod property;
-    pub use property::PropertyValue;
-    #[path = "@REPO@/src/graph/types.rs"]
-    pub mod types;
-    pub mod storage {
-        #[path = "@REPO@/src/graph/storage/columnar.rs"]
-        pub mod columnar;
-    }
-}
-
 pub mod bits {
 //@extract src/graph/storage/columnar.rs bit pub
 //@extract src/graph/storage/columnar.rs set_bit pub
@@ -25,8 +14,6 @@ pub mod bits {
 #[cfg(kani)]
 mod proofs {
     use super::bits::*;
-    use super::graph::storage::columnar::{Column, ColumnData};
-    use super::graph::PropertyValue;
 
     /// the spec function of the Verus unit, executable
     fn bit_at(words: &[u64], slot: usize) -> bool {
@@ -73,36 +60,6 @@ mod proofs {
         let k: usize = kani::any(); kani::assume(k < 3);
         if k >= len { assert!(w[k] == w0[k]); }
         kani::cover!(slot / 64 < len && bit_at(&w0[..len], slot));
-    }
-
-    // ---- K-PROMOTE: a typed Dense column (<= 3 slots, symbolic base/values/presence) receives a value of another
-    //      type; afterwards every row reads as before and the new row reads the new value
-    fn dense_int() -> (Column, usize, [i64; 3], u64, usize) {
-        let base: usize = kani::any(); kani::assume(base < 1000);
-        let vals: [i64; 3] = kani::any();
-        let n: usize = kani::any(); kani::assume(n >= 1 && n <= 3);
-        let bits: u64 = kani::any(); kani::assume(bits < (1u64 << n));
-        let count = bits.count_ones() as usize;
-        let col = Column::Int(ColumnData::Dense { base, values: vals[..n].to_vec(), present: vec![bits], count });
-        (col, base, vals, bits, n)
-    }
-    #[kani::proof]
-    #[kani::unwind(6)]
-    fn kpromote_dense_int() {
-        let (mut col, base, vals, bits, n) = dense_int();
-        let idx: usize = kani::any(); kani::assume(idx >= base && idx < base + 4);
-        col.set(idx, PropertyValue::Boolean(true));          // a value the Int column cannot hold
-        assert!(matches!(col, Column::Other(_)));
-        let mut k = 0usize;
-        while k < 4 {
-            let row = base + k;
-            let got = col.get(row);
-            if row == idx { assert!(got == PropertyValue::Boolean(true)); }
-            else if k < n && (bits >> k) & 1 == 1 { assert!(got == PropertyValue::Integer(vals[k])); }
-            else { assert!(got == PropertyValue::Null); }
-            k += 1;
-        }
-        kani::cover!(bits != 0);
     }
 
     // @PLAYBACK@
